@@ -90,7 +90,7 @@ def LegalO : Option (List Char) → Prop
 def LegalContent (k : Content) : Prop := LegalS k.t ∧ LegalS k.v ∧ LegalO k.f ∧ LegalO k.is
 
 def SheetInv (s : Sheet) : Prop :=
-  Dense s.rows ∧ (∃ lo, SaveCols.RangesFrom lo s.cols) ∧ LegalS s.name ∧
+  Dense s.rows ∧ SaveCols.Wf s.cols ∧ LegalS s.name ∧
     ∀ i j, LegalContent (Grid.abs s.rows i j)
 
 def Inv (b : Book) : Prop :=
@@ -133,5 +133,40 @@ def rawValue (sst : List (List Char)) (k : Content) : List Char :=
 /-- `getCellBool` without `raw` -/
 def boolText (v : List Char) : List Char :=
   if v = ['1'] then "TRUE".toList else if v = ['0'] then "FALSE".toList else v
+
+/-! ## writing a cell (sheet.go prepareSheetXML, fillColumns; cell.go prepareCell + a setter) -/
+
+/-- the row `prepareSheetXML` appends for slot `k` (no custom default row height) -/
+def newRow (k : Nat) : Row := ⟨k + 1, emptyAttrs, []⟩
+
+/-- `prepareSheetXML`: append missing row slots up to `n` -/
+def extendRows (rows : List Row) (n : Nat) : List Row :=
+  rows ++ (List.range' rows.length (n - rows.length)).map newRow
+
+/-- `fillColumns`: append missing cell slots of row slot `i` up to `n` -/
+def fillCols (i : Nat) (cells : List Cell) (n : Nat) : List Cell :=
+  cells ++ (List.range' cells.length (n - cells.length)).map fun j => blank (refOf j i)
+
+/-- a setter changes the payload fields of the prepared cell, never its reference -/
+def updCell (upd : Content → Content) (c : Cell) : Cell :=
+  let k := upd (content c)
+  ⟨c.ref, k.s, k.t, k.v, k.f, k.is⟩
+
+/-- `prepareCell` + setter at row slot `i`, cell slot `j` (cell `(j+1, i+1)`) -/
+def writeCell (rows : List Row) (i j : Nat) (upd : Content → Content) : List Row :=
+  let rows := extendRows rows (i + 1)
+  match rows[i]? with
+  | none => rows
+  | some r =>
+    let cs := fillCols i r.cells (j + 1)
+    match cs[j]? with
+    | none => rows
+    | some c => rows.set i { r with cells := cs.set j (updCell upd c) }
+
+/-- `SetCellInt` on an unstyled sheet: no type, decimal text, formula and inline string cleared -/
+def setInt (n : Int) (k : Content) : Content := ⟨k.s, [], Ref.itoaInt n, none, none⟩
+
+/-- `SetCellBool` -/
+def setBool (b : Bool) (k : Content) : Content := ⟨k.s, ['b'], if b then ['1'] else ['0'], none, none⟩
 
 end XlModel.SaveBook
